@@ -281,6 +281,8 @@ def _url_case(vals, acc):
 
 def run(ctx):
     rep = ctx.new_report()
+    from vlib.ref import noise as _noise
+    E.set_noise(_noise.netutils_noise())
     ms = macs(ctx.seed)
     E.run(rep, 'eui64', [PREFIXES + sorted(MASK_SPELLED), ms, ['colon', 'upper', 'dash']], _eui_case)
     bad = [(p, mac_str(ms[5]), 'must-raise') for p in BAD_PREFIXES]
